@@ -294,10 +294,18 @@ def run_impl(spec, order, link_order=None):
     pairs = [(c, i) for c, cs in enumerate(comps) for i in range(len(cs["ins"]))]
     if link_order is not None:
         pairs = [pairs[k] for k in link_order]
+    shared = {}   # (component, output) -> the one pass-through adapter object that several inputs branch off
     for c, i in pairs:
         x = comps[c]["ins"][i]
         cur = nodes[x["src"][0]].outputs[f"Out{x['src'][1]}"]
-        for a in reversed(x["chain"]):
+        chain = list(reversed(x["chain"]))   # source -> consumer
+        if x.get("shared") and chain and chain[0][0] == "pass":
+            key = tuple(x["src"])
+            if key not in shared:
+                shared[key] = cur >> make_adapter(chain[0])
+            cur = shared[key]
+            chain = chain[1:]
+        for a in chain:
             cur = cur >> make_adapter(a)
         cur >> nodes[c].inputs[f"In{i}"]
     outcome, err, names, msg = "ok", None, None, None
@@ -631,6 +639,21 @@ def corpus():
 # --------------------------------------------------------------------------------------
 # engine interface
 # --------------------------------------------------------------------------------------
+def share_pass(rng, spec):
+    """with some probability the inputs that read one output branch off a *single* pass-through adapter object
+    (out >> scale; scale >> in1; scale >> in2) instead of having one adapter chain each"""
+    by_src = {}
+    for cs in spec["comps"]:
+        for x in cs["ins"]:
+            by_src.setdefault(tuple(x["src"]), []).append(x)
+    for xs in by_src.values():
+        if len(xs) >= 2 and rng.random() < 0.5:
+            for x in xs:
+                x["chain"] = list(x["chain"]) + [["pass"]]   # chains are listed consumer -> source
+                x["shared"] = True
+    return spec
+
+
 def is_nontrivial(spec):
     comps = spec["comps"]
     return len(comps) >= 2 and any(
@@ -696,7 +719,7 @@ def run(ctx, res):
         check_spec(spec, gen_orders(ctx.rng, n, 6), res)
     budget = ctx.n(230, 3000)
     for _ in range(budget):
-        spec = gen_case(ctx.rng)
+        spec = share_pass(ctx.rng, gen_case(ctx.rng))
         n = len(spec["comps"])
         k = 6 if n <= 3 else ctx.n(4, 8)
         check_spec(spec, gen_orders(ctx.rng, n, k), res)
@@ -710,7 +733,7 @@ def search(ctx, res, divergences, broken):
             order = c.pop("order", None)
             specs.append((c, [order] if order else None))
     for _ in range(ctx.n(600, 5000)):
-        specs.append((gen_case(ctx.rng), None))
+        specs.append((share_pass(ctx.rng, gen_case(ctx.rng)), None))
     for spec, orders in specs:
         n = len(spec["comps"])
         check_spec(spec, orders or gen_orders(ctx.rng, n, 6), res, do_model=False)
